@@ -342,6 +342,15 @@ func genC18Args(t *rapid.T) c18Case {
 	args := []string{}
 	n := rapid.IntRange(0, 3).Draw(t, "nargs")
 	pool := []string{`"s1"`, "2", "ev", `"x y"`, "7", "3.5", "true", "nil", "absent.key"}
+	numeric := rapid.IntRange(0, 3).Draw(t, "numericArgs") == 0
+	if numeric {
+		// numbers only - literals, variables, and direct results of functions returning interface{} -
+		// parsed into *int / *float64 / *int64 / *reflect.Value targets
+		pool = []string{"2", "7", "3.5", "zero", "anyInt()", "anyFloat()", "anyInt() + 1", "i64"}
+		if n == 0 {
+			n = 1
+		}
+	}
 	for i := 0; i < n; i++ {
 		args = append(args, pool[rapid.IntRange(0, len(pool)-1).Draw(t, "arg")])
 	}
@@ -370,6 +379,9 @@ func genC18Args(t *rapid.T) c18Case {
 		plainCall = func(fn string) string { return fn + "(" + strings.Join(inPlace, ", ") + ")" }
 	}
 	which := rapid.SampledFrom([]string{"get", "parse", "isset"}).Draw(t, "which")
+	if numeric {
+		which = "parsenum"
+	}
 	c := c18Case{Kind: "arguments"}
 	hasNil := false
 	for _, a := range append([]string{piped}, args...) {
@@ -390,6 +402,8 @@ func genC18Args(t *rapid.T) c18Case {
 		}
 	case "parse":
 		c.Tpl, c.Twin = "[{{ "+call("argsParse")+" }}]", "[{{ "+call("reflParse")+" }}]"
+	case "parsenum":
+		c.Tpl, c.Twin = "[{{ "+call("argsParseNum")+" }}]", "[{{ "+call("reflParseNum")+" }}]"
 	default:
 		// IsSet on identifier arguments: defined, undefined, nil-valued
 		ia := []string{}
@@ -455,6 +469,58 @@ func c18ArgVars() jet.VarMap {
 		return reflect.ValueOf(show(vals))
 	})
 	vars.Set("reflParse", func(vs ...interface{}) string { return show(vs) })
+	vars.Set("anyInt", func() interface{} { return 3 })
+	vars.Set("anyFloat", func() interface{} { return 2.5 })
+	vars.Set("i64", int64(64))
+	toF := func(x interface{}) float64 {
+		v := reflect.ValueOf(x)
+		if v.Kind() == reflect.Float64 || v.Kind() == reflect.Float32 {
+			return v.Float()
+		}
+		return float64(v.Int())
+	}
+	// typed targets by position: *int, *float64, *int64, *reflect.Value
+	vars.SetFunc("argsParseNum", func(a jet.Arguments) reflect.Value {
+		n := a.NumOfArguments()
+		ints, floats, int64s, vals := make([]int, n), make([]float64, n), make([]int64, n), make([]reflect.Value, n)
+		ptrs := make([]interface{}, n)
+		for i := range ptrs {
+			ptrs[i] = []interface{}{&ints[i], &floats[i], &int64s[i], &vals[i]}[i%4]
+		}
+		if err := a.ParseInto(ptrs...); err != nil {
+			a.Panicf("%v", err)
+		}
+		var parts []string
+		for i := 0; i < n; i++ {
+			switch i % 4 {
+			case 0:
+				parts = append(parts, fmt.Sprintf("int:%d", ints[i]))
+			case 1:
+				parts = append(parts, fmt.Sprintf("float64:%g", floats[i]))
+			case 2:
+				parts = append(parts, fmt.Sprintf("int64:%d", int64s[i]))
+			default:
+				parts = append(parts, fmt.Sprintf("value:%s:%v", vals[i].Kind(), vals[i].Interface()))
+			}
+		}
+		return reflect.ValueOf(strings.Join(parts, ","))
+	})
+	vars.Set("reflParseNum", func(vs ...interface{}) string {
+		var parts []string
+		for i, x := range vs {
+			switch i % 4 {
+			case 0:
+				parts = append(parts, fmt.Sprintf("int:%d", int(toF(x))))
+			case 1:
+				parts = append(parts, fmt.Sprintf("float64:%g", toF(x)))
+			case 2:
+				parts = append(parts, fmt.Sprintf("int64:%d", int64(toF(x))))
+			default:
+				parts = append(parts, fmt.Sprintf("value:%s:%v", reflect.ValueOf(x).Kind(), x))
+			}
+		}
+		return strings.Join(parts, ",")
+	})
 	_ = plainCallDoc
 	vars.SetFunc("argsIsSet", func(a jet.Arguments) reflect.Value {
 		var parts []string
@@ -497,7 +563,7 @@ func judgeC18Args(c c18Case) (v core.Verdict) {
 
 func TestC18(t *testing.T) {
 	core.Run(t, "C18",
-		"(a) programs that drive Runtime.Let / Set / SetOrLet / LetGlobal / Resolve / Context / YieldBlock through custom functions, interleaved with template-level := and = and nested (depth<=4) in if / range (both context modes) / block (with context) / include (with context); oracle = the syntax twin (API statements replaced by the syntax they mirror) rendered by the engine, and the MiniJet reference interpreter with API mirror functions; (b) Arguments.Get / NumOfArguments / ParseInto versus a reflected variadic function for plain, piped and slot-placed argument shapes, IsSet on defined / undefined / nil identifiers; non-trivial = an API call at depth>=2, YieldBlock with a context, SetOrLet, or a piped/slot shape",
+		"(a) programs that drive Runtime.Let / Set / SetOrLet / LetGlobal / Resolve / Context / YieldBlock through custom functions, interleaved with template-level := and = and nested (depth<=4) in if / range (both context modes) / block (with context) / include (with context); oracle = the syntax twin (API statements replaced by the syntax they mirror) rendered by the engine, and the MiniJet reference interpreter with API mirror functions; (b) Arguments.Get / NumOfArguments / ParseInto (into *interface{} targets, and numbers - literals, variables, direct results of interface{}-returning functions - into *int / *float64 / *int64 / *reflect.Value) versus a reflected variadic function for plain, piped and slot-placed argument shapes, IsSet on defined / undefined / nil identifiers; non-trivial = an API call at depth>=2, YieldBlock with a context, SetOrLet, or a piped/slot shape",
 		genC18, judgeC18)
 }
 
